@@ -258,7 +258,7 @@ def case_distance(mon, a, f, lon1, lat1, lon2, lat2, kind):
         dl = abs(lon1 - lon2) % 360.0
         dl = min(dl, 360.0 - dl)
         want = a * math.radians(dl)
-        if dl < 179.999999:
+        if dl <= 180.0:
             # the library converts each longitude to radians before
             # subtracting: allow 4 ulp of the larger longitude (in radians)
             slack = 4.0 * math.ulp(math.radians(max(abs(lon1), abs(lon2),
@@ -410,7 +410,11 @@ def gen_pair(rng):
         return lon1, la1, lon1, la2, "meridian"
     if r < 0.8:
         lon2 = rng.choice((lon1 + rng.uniform(-179, 179), lon1 + 200.0,
-                           lon1 - 270.0, lon1 + 1e-6, lon1 + 179.9999))
+                           lon1 - 270.0, lon1 + 1e-6, lon1 + 179.9999,
+                           # almost, and exactly, antipodal along the equator
+                           lon1 + 180.0 - 10.0 ** rng.uniform(-9, -2),
+                           lon1 - 180.0 + 10.0 ** rng.uniform(-9, -2),
+                           lon1 + 180.0))
         return lon1, 0.0, lon2, 0.0, "equator"
     if r < 0.9:
         eps = rng.choice((2.0, 5.0, 1.5, 30.0))
